@@ -64,7 +64,7 @@ def wide(ctx):
             okf = pmatch("WideFifo(Q_w, self.slots_number, self.max_stop_count, self.max_start_count)", ex.obj(o.ctor[2]).ctor)["w"] == EW and o.ctor[3][0][1] == pat("range(len(self.start))")
             ctx.check(okf, "C32.epoch-fifo", o.site, "WideFIFOLatencyMeasurer.fifos", found=tstr(ex.obj(o.ctor[2]).ctor), required="one FIFO of epoch-width entries per way, read width = max_stop_count, write width = max_start_count")
     if fifos is None:
-        raise AnalysisError("C32", comp.site, "epoch FIFOs not found")
+        raise AnalysisError("C32", comp.site, "epoch FIFOs not found", missing="epoch FIFOs not found")
     st, sp = need_body(ex, "start", "C32", comp.site), need_body(ex, "stop", "C32", comp.site)
     cs = calls_in_body(ex, st)
     ok = len(cs) == 1 and cs[0].callee == ("a", ("i", fifos, st.binder), "write") and not _inner_guards(ex, cs[0], st)
@@ -130,7 +130,7 @@ def tagged(ctx):
             ok = kw.get("shape") == EW and kw.get("depth") == pat("self.slots_number") and kw.get("write_ports") == pat("len(self.start)") and kw.get("read_ports") == pat("len(self.stop)")
             ctx.check(ok, "C32.slot-memory", o.site, "TaggedLatencyMeasurer.slots", found=tstr(o.ctor), required="slot memory: epoch-width rows, one row per slot, one write port per start way, one read port per stop way")
     if slots is None:
-        raise AnalysisError("C32", comp.site, "slot memory not found")
+        raise AnalysisError("C32", comp.site, "slot memory not found", missing="slot memory not found")
     st, sp = need_body(ex, "start", "C32", comp.site), need_body(ex, "stop", "C32", comp.site)
     cs = [c for c in calls_in_body(ex, st) if has("Q_s.write[Q_k]", c.callee)]
     ok = len(cs) == 1 and cs[0].callee == ("i", ("a", slots, "write"), st.binder) and dict(cs[0].kwargs) == {"addr": ("a", ("arg", st.bodyid), "slot"), "data": ep} and not _inner_guards(ex, cs[0], st)
